@@ -70,6 +70,21 @@ class InProg(plumpy.ContextMixin, programs.ProgBase):
 generated.register(InProg, 'InProg')
 
 
+class InProgNoDefaults(plumpy.ContextMixin, programs.ProgBase):
+    """Declared nested namespaces and not a single default: what the process is given is, value for value, what it parses."""
+
+    @classmethod
+    def define(cls, spec):
+        super().define(spec)
+        spec.input('a', valid_type=int, required=False)
+        spec.input('ns.b', valid_type=str, required=False)
+        spec.input('ns.deep.c', required=False)
+        spec.input_namespace('lazy', required=False, dynamic=True)
+
+
+generated.register(InProgNoDefaults, 'InProgNoDefaults')
+
+
 class InProgCodec(programs.CodecMixin, InProg):
     """The same with inputs and outputs stored in an encoded form."""
 
@@ -113,6 +128,8 @@ def gen_cases(tier, seed):
         for plan in plist:
             n += 1
             yield {'kind': 'process', 'name': name, 'program': prog, 'plan': plan, 'inputs': INPUTS[n % 4], 'pid': PIDS[n % 4], 'codec': n % 5 in (1, 3)}
+            if n % 7 == 2:
+                yield {'kind': 'process', 'name': name, 'program': prog, 'plan': plan, 'inputs': INPUTS[2], 'pid': PIDS[n % 4], 'nodefaults': True}
     for i in range(40 if tier == 'quick' else 400):
         ast = outlines.random_ast(rng, rng.randint(1, 3), max_body=3)
         preds = [rng.random() < 0.6 for _ in range(rng.randint(0, 8))]
@@ -133,7 +150,9 @@ def strip(x):
 def accessors(p):
     v = {'pid': repr(p.pid), 'state': p.state.value, 'raw_inputs': c14.norm(p.raw_inputs) if p.raw_inputs is not None else None,
          'inputs': c14.norm(p.inputs) if p.inputs is not None else None, 'outputs': c14.norm(p.outputs), 'status': p.status, 'paused': p.paused,
-         'creation_time': p.creation_time, 'ctx': c14.norm(dict(p.ctx.__dict__)) if getattr(p, 'ctx', None) is not None else None}
+         'creation_time': p.creation_time, 'ctx': c14.norm(dict(p.ctx.__dict__)) if getattr(p, 'ctx', None) is not None else None,
+         # (the kind of mapping at every level of the parsed inputs: read-only attribute mappings at the declared namespace levels)
+         'inputs_mappings': _mapping_kinds(p.inputs) if p.inputs is not None else None}
     if p.has_terminated():
         v['result'] = _call(p.result)
         v['successful'] = _call(p.successful)
@@ -141,6 +160,12 @@ def accessors(p):
         v['exception'] = [type(exc).__name__, c14.norm(list(exc.args))] if exc is not None else None
         v['killed_msg'] = _call(p.killed_msg)
     return v
+
+
+def _mapping_kinds(m, depth=0):
+    if not isinstance(m, (dict, plumpy.utils.Frozendict)) or depth > 4:
+        return None
+    return [type(m).__name__, {str(k): _mapping_kinds(v, depth + 1) for k, v in m.items() if isinstance(v, (dict, plumpy.utils.Frozendict))}]
 
 
 def _call(fn):
@@ -252,6 +277,8 @@ class SavePoints:
 
 class SaveRun(lifecycle.Run):
     def _make_class(self):
+        if self.case.get('nodefaults'):
+            return programs.program_class(self.case['program'], InProgNoDefaults)
         return programs.program_class(self.case['program'], InProgCodec if self.case.get('codec') else InProg)
 
     def _construct(self, cls, loop):
